@@ -80,7 +80,14 @@ fn parse_tag_inner(i: &[u8], depth: usize) -> nom::IResult<&[u8], StructureTag> 
             }
             let mut tv: Vec<StructureTag> = Vec::new();
             while content.input_len() > 0 {
-                let (j, sub) = parse_tag_inner(content, depth + 1)?;
+                // The content octets are all here: a nested value which runs past
+                // them is malformed and no further input can complete it.
+                let (j, sub) = parse_tag_inner(content, depth + 1).map_err(|e| match e {
+                    nom::Err::Incomplete(_) => {
+                        nom::Err::Failure(Error::from_error_kind(content, ErrorKind::Eof))
+                    }
+                    e => e,
+                })?;
                 content = j;
                 tv.push(sub);
             }
